@@ -52,8 +52,63 @@ class HarnessError(Exception):
     pass
 
 
-def _pyfn(*args):
-    return len(args)
+def _pyfn(*args, **kwargs):
+    return len(args) + len(kwargs)
+
+
+# how a resource is handed to PythonJob.call: job['shapes'][i] for read i (default 'pos')
+PY_SHAPES = ('pos', 'kw', 'list', 'tuple', 'dictval', 'list_in_dict', 'dict_in_list', 'tuple_in_dict', 'kw_dict')
+
+
+def _shape_arg(shape, r, args, kwargs, tag):
+    if shape == 'pos':
+        args.append(r)
+    elif shape == 'kw':
+        kwargs[f'k{tag}'] = r
+    elif shape == 'list':
+        args.append([1, r])
+    elif shape == 'tuple':
+        args.append((r, 'x'))
+    elif shape == 'dictval':
+        args.append({'a': 1, 'k': r})
+    elif shape == 'list_in_dict':
+        args.append({'k': [r]})
+    elif shape == 'dict_in_list':
+        args.append([{'k': r}])
+    elif shape == 'tuple_in_dict':
+        args.append({'k': (0, r)})
+    elif shape == 'kw_dict':
+        kwargs[f'k{tag}'] = {'k': r}
+    else:
+        raise HarnessError(shape)
+
+
+def _shape_leaf(shape, args, kwargs, tag):
+    """inverse of _shape_arg on the preserialised argument file: pops the entry of one read and returns its
+    (type, value) leaf"""
+    def un(x, typ):
+        if x[0] != typ:
+            raise HarnessError(f'argument file: expected {typ}, found {x[0]}')
+        return x[1]
+    if shape in ('kw', 'kw_dict'):
+        x = kwargs.pop(f'k{tag}')
+        return x if shape == 'kw' else un(x, 'dict')['k']
+    x = args.pop(0)
+    if shape == 'pos':
+        return x
+    if shape == 'list':
+        return un(x, 'list')[1]
+    if shape == 'tuple':
+        return un(x, 'tuple')[0]
+    if shape == 'dictval':
+        return un(x, 'dict')['k']
+    if shape == 'list_in_dict':
+        return un(un(x, 'dict')['k'], 'list')[0]
+    if shape == 'dict_in_list':
+        return un(un(x, 'list')[0], 'dict')['k']
+    if shape == 'tuple_in_dict':
+        return un(un(x, 'dict')['k'], 'tuple')[1]
+    raise HarnessError(shape)
 
 
 # ----------------------------------------------------------------------------------------------
@@ -427,8 +482,11 @@ def build_and_run(prog):
             elif out == 'ext-last':
                 late_ext.append(j)
         else:
-            args = [ref_obj(src, form, which) for src, form, which in reads]
-            r = j.call(_pyfn, *args)
+            args, kwargs = [], {}
+            shapes = sp.get('shapes') or ['pos'] * len(reads)
+            for i, (src, form, which) in enumerate(reads):
+                _shape_arg(shapes[i], ref_obj(src, form, which), args, kwargs, i)
+            r = j.call(_pyfn, *args, **kwargs)
             outs[k] = {'res': r}
             if sp['out'] == 'str':
                 outs[k]['str'] = r.as_str()
@@ -567,10 +625,13 @@ def judge(prog, bt):
             if arg_dst not in script.replace('${BATCH_TMPDIR}', tmp[k]):
                 bad('python-argument-file-path-mismatch', f'job {k}: argument file is downloaded to {arg_dst} but the '
                     'script does not open that path')
-            if len(args) != len(bt.pyargs[k]) or kwargs:
-                raise HarnessError(f'python job {k}: argument file has {len(args)} args for {len(bt.pyargs[k])} reads')
-            for key, (typ, val) in zip(bt.pyargs[k], args):
+            args, kwargs = list(args), dict(kwargs)
+            shapes = specs[k].get('shapes') or ['pos'] * len(bt.pyargs[k])
+            for i, key in enumerate(bt.pyargs[k]):
+                typ, val = _shape_leaf(shapes[i], args, kwargs, i)
                 subst[k][key] = val   # str path, or {'a': path, 'b': path} for a whole group
+            if args or kwargs:
+                raise HarnessError(f'python job {k}: argument file has extra entries {args} {kwargs}')
 
     # ---- per read: producer upload == consumer download, parents, local paths -------------------------------
     local_of = {}   # resource identity -> set of local paths seen
@@ -916,6 +977,13 @@ def plan(tier):
                      '{bash, python} consumer, every job taking none / one / an ordered pair of references from every earlier '
                      'job x split x depends_on-first'},
         ]
+    # python argument shapes: every way of handing a resource to PythonJob.call
+    prod = [('B', 'file', False), ('B', 'group', False), ('P', 'str', False)]
+    pl.append({'gen': 'shapes', 'n': 3, 'args': (prod, quick), 'shards': 16 if quick else 64,
+               'what': 'python argument shapes ' + str(list(PY_SHAPES)) + ': producer in {bash file, bash group, python str} -> '
+                       'python consumer reading one reference (every form) in every shape, both creation orders; and two '
+                       'producers -> python consumer reading one reference from each, every pair of shapes'
+                       + ('' if quick else ', both creation orders')})
     # job naming: names feed the scratch directory of every job resource, so every naming scheme is crossed with a
     # thinned program space in which all producers use the same resource identifiers (ofile / og / result1)
     named2 = (2, full, (None,), (False,))
@@ -927,9 +995,31 @@ def plan(tier):
     return pl
 
 
+def shape_programs(prod, quick):
+    cons = {'type': 'P', 'out': 'res', 'wout': False}
+    for typ, out, w in prod:
+        p0 = {'type': typ, 'out': out, 'wout': w, 'reads': []}
+        for ref in all_refs(0, p0, 'P'):
+            for sh in PY_SHAPES:
+                for rev in (False, True):
+                    yield {'jobs': [p0, dict(cons, reads=[list(ref)], shapes=[sh])], 'rev': rev}
+    for k0 in prod:
+        for k1 in prod:
+            p0 = {'type': k0[0], 'out': k0[1], 'wout': False, 'reads': []}
+            p1 = {'type': k1[0], 'out': k1[1], 'wout': False, 'reads': []}
+            for r0 in all_refs(0, p0, 'P'):
+                for r1 in all_refs(1, p1, 'P'):
+                    for s0 in PY_SHAPES:
+                        for s1 in PY_SHAPES:
+                            for rev in ((False,) if quick else (False, True)):
+                                yield {'jobs': [p0, p1, dict(cons, reads=[list(r0), list(r1)], shapes=[s0, s1])], 'rev': rev}
+
+
 def plan_programs(entry):
     if entry['gen'] == 'base':
         return programs(*entry['args'])
+    if entry['gen'] == 'shapes':
+        return shape_programs(*entry['args'])
     if entry['gen'] == 'named':
         def gen():
             for a in entry['args']:
@@ -956,7 +1046,7 @@ def _work(item):
     entry = plan(tier)[pi]
     res = {'evals': 0, 'viol': {}, 'reads': 0, 'quoted': 0, 'group_reads': 0, 'py_reads': 0, 'staged': 0,
            'same_twice': 0, 'two_of_one_producer': 0, 'dep_first': 0, 'split': 0,
-           'with_read': 0, 'rejected': 0, 'samples': [], 'ext': entry['gen'] != 'base', 'named': 0}
+           'with_read': 0, 'rejected': 0, 'samples': [], 'ext': entry['gen'] != 'base', 'named': 0, 'shaped': 0}
     for i, prog in enumerate(plan_programs(entry)):
         if i % nshards != shard:
             continue
@@ -967,6 +1057,7 @@ def _work(item):
         if stats['rejected']:
             continue
         res['named'] += prog.get('names', 'default') != 'default'
+        res['shaped'] += sum(sh != 'pos' for j in prog['jobs'] for sh in j.get('shapes', ()))
         res['dep_first'] += any(j.get('dep_first') for j in prog['jobs'])
         res['split'] += any(j.get('split') for j in prog['jobs'])
         if any(isinstance(r[0], int) for j in prog['jobs'] for r in j['reads']):
@@ -989,7 +1080,7 @@ def check(tier, seed, procs):
         items += [(tier, pi, s, entry['shards']) for s in range(entry['shards'])]
     rows = par.pmap(_work, par.rotate(items, seed), procs, chunksize=1)
     keys = ('evals', 'reads', 'quoted', 'group_reads', 'py_reads', 'staged', 'with_read', 'rejected', 'same_twice',
-            'two_of_one_producer', 'dep_first', 'split', 'named')
+            'two_of_one_producer', 'dep_first', 'split', 'named', 'shaped')
     tot = {k: sum(r[k] for r in rows) for k in keys}
     best = {}
     for r in rows:
@@ -1024,11 +1115,12 @@ def check(tier, seed, procs):
         'programs_with_depends_on_before_the_read': tot['dep_first'],
         'programs_with_reads_split_over_two_commands': tot['split'],
         'programs_with_non_default_job_names': tot['named'],
+        'python_reads_in_a_non_positional_shape': tot['shaped'],
         'job_naming_schemes': list(NAME_SCHEMES),
     }
     vac = None
     for k in ('reads', 'quoted', 'group_reads', 'py_reads', 'staged', 'with_read', 'same_twice', 'two_of_one_producer',
-              'dep_first', 'split', 'named'):
+              'dep_first', 'split', 'named', 'shaped'):
         if tot[k] == 0:
             vac = f'counter {k} is zero'
     return {
